@@ -478,7 +478,7 @@ func runChild(p *Prop, bin, propID, tier string, seed int64, sh, nsh, from, only
 	name := bin
 	var pre []string
 	if p.AsLimit && !p.Race {
-		pre = append(pre, "--as=3221225472")
+		pre = append(pre, "--as=4294967296")
 	}
 	if cpuLimit > 0 {
 		pre = append(pre, fmt.Sprintf("--cpu=%d", cpuLimit))
